@@ -125,21 +125,14 @@ func judge(c wireCase) outcome {
 		if f.Req == idl.ReqRequired {
 			return outcome{"judged", readMustFail(call, ti.Key, enc, fmt.Sprintf("required field %s (id %d) arrives with a different wire type", f.Name, f.ID))}
 		}
+		// "without disturbing other fields": the retagged field itself is not compared
 		exp := ref.NewStruct()
 		for id, fv := range v.F {
 			if id != c.FieldID {
 				exp.F[id] = fv
 			}
 		}
-		if f.Req != idl.ReqOptional {
-			switch {
-			case f.HasDef:
-				exp.F[f.ID] = f.Default
-			case f.Type.Kind != ref.Struct:
-				exp.F[f.ID] = ref.Zero(f.Type)
-			}
-		}
-		return outcome{"judged", readExpect(call, ti.Key, st, enc, ref.Normalise(top, exp), fmt.Sprintf("encoding where field %s (id %d) carries a different wire type", f.Name, f.ID))}
+		return outcome{"judged", readExpectExcept(call, ti.Key, st, enc, ref.Normalise(top, exp), c.FieldID, fmt.Sprintf("encoding where field %s (id %d) carries a different wire type", f.Name, f.ID))}
 	case "omit_required":
 		enc := ref.Encode(st, v, &ref.EncodeOpts{Omit: map[*ref.StructT]map[int32]bool{st: {c.FieldID: true}}})
 		return outcome{"judged", readMustFail(call, ti.Key, enc, fmt.Sprintf("required field id %d is absent", c.FieldID))}
@@ -162,6 +155,11 @@ func judge(c wireCase) outcome {
 type caller func(req map[string]interface{}) (map[string]interface{}, error)
 
 func readExpect(call caller, key string, st *ref.StructT, enc []byte, want ref.V, what string) error {
+	return readExpectExcept(call, key, st, enc, want, -1<<31, what)
+}
+
+// readExpectExcept is readExpect that leaves one top-level field out of the comparison.
+func readExpectExcept(call caller, key string, st *ref.StructT, enc []byte, want ref.V, except int32, what string) error {
 	resp, err := call(map[string]interface{}{"op": "read", "type": key, "hex": hex.EncodeToString(enc)})
 	if err != nil {
 		return err
@@ -177,10 +175,23 @@ func readExpect(call caller, key string, st *ref.StructT, enc []byte, want ref.V
 		return fmt.Errorf("generated Read of %s: object does not fit the schema: %v", st.Name, err)
 	}
 	top := &ref.Type{Kind: ref.Struct, Struct: st}
-	if g := ref.Normalise(top, got); !ref.Equal(want, g) {
+	if gs, ok := got.(*ref.StructV); ok {
+		delete(gs.F, except)
+	}
+	if ws, ok := want.(*ref.StructV); ok {
+		delete(ws.F, except)
+	}
+	if g := dropField(ref.Normalise(top, got), except); !ref.Equal(dropField(want, except), g) {
 		return fmt.Errorf("generated Read of %s (%s) yields a different value\n  want %s\n  got  %s\n  bytes %x", st.Name, what, ref.Show(want), ref.Show(g), enc)
 	}
 	return nil
+}
+
+func dropField(v ref.V, id int32) ref.V {
+	if s, ok := v.(*ref.StructV); ok {
+		delete(s.F, id)
+	}
+	return v
 }
 
 func readMustFail(call caller, key string, enc []byte, what string) error {
